@@ -397,22 +397,40 @@ def sortedlists(run, fx):
     if len(st) != 1:
         run.broken('PRECEDENCE', inst, 'the store into State::rules was not found', fn.where())
         return
-    base = {f[:3] for f in dom.facts_at(fn, st[0]['i'])}
-    extra = [f[:3] for f in dom.facts_at(fn, q['i']) if f[:3] not in base]
+    # the branches that every path to the sort must have taken but the (unconditional) store of the list need not: only the test that
+    # the list is not null / not empty may stand between them.  Compared as branch conditions, not as derived facts (a conditional
+    # definition of `begin` would otherwise show up as extra facts about the state pointer).
+    gq = dom.edge_guards(fn, fn.block_of[q['i']])
+    gs = dom.edge_guards(fn, fn.block_of[st[0]['i']])
+    key = lambda g: (g[0] if isinstance(g[0], int) else id(g[0]), g[1])
+    have = {key(g) for g in gs}
     begin = fn.render(fn.strip_all_casts(q['args'][0]))
-    def harmless(f):
-        a, op, b = f
-        if a == begin and op == '!=' and b == '0':
-            return True                                   # qsort(NULL, 0, ..) is undefined: the null guard
-        if op in ('!=', '>') and b in ('0',) and a.replace(' ', '') in ('(end-begin)', 'end-begin'):
-            return True                                   # non-empty
-        if (a, op, b) in ((begin, '!=', 'end'), ('end', '!=', begin), ('end', '>', begin), (begin, '<', 'end')):
-            return True
-        return False
-    bad = [f for f in extra if not harmless(f)]
+    count = fn.render(fn.strip_all_casts(q['args'][1]))
+    count_res = fn.render(fn.deref(q['args'][1]), resolve=True)
+
+    def harmless(cond, pol):
+        ok_all = True
+        for a_, p_ in dom.atoms(fn, cond, pol, inline=False, cond_expand=False):      # the test as written, not what its operands' definitions imply
+            nf = dom.norm(fn, a_, p_)
+            nr = dom.norm(fn, a_, p_, resolve=True)
+            good = False
+            for f in (nf, nr):
+                if not f:
+                    continue
+                a, op, b = f[:3]
+                if a == begin and op == '!=' and b == '0':
+                    good = True
+                if op in ('!=', '>') and b == '0' and a.replace(' ', '') in (count.replace(' ', ''), count_res.replace(' ', ''), '(end-begin)', 'end-begin'):
+                    good = True
+                if (a, op, b) in ((begin, '!=', 'end'), ('end', '!=', begin), ('end', '>', begin), (begin, '<', 'end')):
+                    good = True
+            ok_all = ok_all and good
+        return ok_all
+    bad = [(fn.render(fn.N(g[0])) if isinstance(g[0], int) else fn.render(g[0]), g[1]) for g in gq if key(g) not in have and not harmless(g[0], g[1])]
+    extra = [(fn.render(fn.N(g[0])) if isinstance(g[0], int) else fn.render(g[0]), g[1]) for g in gq if key(g) not in have]
     if bad:
         run.violated('PRECEDENCE', inst, fn.loc(q), 'the sort of a state\'s rule list is skipped unless %s: lists that do not meet this are used in the order the font stores them, '
-                     'so "longest sort key first, then earliest rule" no longer holds for them' % (bad,))
+                     'so "longest sort key first, then earliest rule" no longer holds for them' % (['%s is %s' % (c_, 'true' if p_ else 'false') for c_, p_ in bad],))
     else:
         run.held('PRECEDENCE', inst, fn.loc(q), 'qsort(%s, .., cmpRuleEntry) guarded only by %s' % (begin, extra or 'nothing'))
 
